@@ -1810,7 +1810,7 @@ class RecordedProcessIO:
         pass
 
 
-def makegateway_leaves_no_process(live_ids, new_id, explicit: bool, kind: int) -> bool:
+def makegateway_leaves_no_process(live_ids, new_id, explicit: bool, kind: int, reuse_spec: bool = False) -> bool:
     """Group.makegateway with create_io / bootstrap replaced by recording stubs.  Whatever happens, a call that
     raises must not leave a started process un-killed; a call that succeeds registers a gateway with a unique id."""
     import execnet.multi as multi
@@ -1841,6 +1841,17 @@ def makegateway_leaves_no_process(live_ids, new_id, explicit: bool, kind: int) -
         n_live = len(g)
         before = len(log)
         text = ("popen", "ssh=somehost", "popen//python=py")[kind] + ("//id=" + new_id if explicit else "")
+        if reuse_spec:
+            # the same XSpec object is handed to makegateway twice while the first gateway is still alive
+            from execnet.xspec import XSpec
+
+            text = XSpec(text)
+            try:
+                g.makegateway(text)
+            except Exception:
+                return True          # (first call refused: covered by the other obligations)
+            n_live = len(g)
+            before = len(log)
         try:
             gw = g.makegateway(text)
         except Exception:
@@ -1853,6 +1864,8 @@ def makegateway_leaves_no_process(live_ids, new_id, explicit: bool, kind: int) -
             for b in range(a + 1, len(ids)):
                 if ids[a] == ids[b]:
                     return False
+        if reuse_spec:
+            return False         # the second gateway would share the first one's id
         return len(g) == n_live + 1 and g[gw.id] is gw and len(log) == before + 1
     finally:
         multi.gateway_io.create_io, multi.gateway_bootstrap.bootstrap = saved
